@@ -273,7 +273,9 @@ def corpus():
 
 
 _WORDS = [b'ACME', b'CORPORATION', b'GmbH', b'Ltd.', b'Stra\xc3\x9fe', b'12', b'St.', b'\xe6\xa0\xaa\xe5\xbc\x8f', b'(base', b'16)',
-          b'hex', b'(hex', b'hex)', b'P.O.', b'Box', b'CA', b'94043', b'-', b'00-00-00', b'#', b'\xc2\xa0x', b'a\rb']
+          b'hex', b'(hex', b'hex)', b'P.O.', b'Box', b'CA', b'94043', b'-', b'00-00-00', b'#', b'\xc2\xa0x', b'a\rb',
+          # characters that str.splitlines() treats as line boundaries but the registry format (lines end in LF) does not
+          b'v\x0bt', b'f\x0cf', b'f\x1cs', b'g\x1ds', b'r\x1es', b'n\xc2\x85l', b'l\xe2\x80\xa8s', b'p\xe2\x80\xa9s']
 _HEADERS = [b'OUI/MA-L\t\t\tOrganization', b'company_id\t\t\tOrganization', b'\t\t\t\tAddress', b'', b'   ',
             b'Generated: Mon, 01 Jan 2024', b'IAB Range\t\tOrganization', b'note (base 16) values', b'( hex )', b'(HEX)']
 
@@ -645,7 +647,10 @@ from props import c19
 kind, data = sys.argv[2], bytes.fromhex(sys.argv[3])
 for line in sys.stdin:
     key = int(line)
-    print(json.dumps(c19._genlookup_here(kind, data, key)), flush=True)
+    try:
+        print(json.dumps(c19._genlookup_here(kind, data, key)), flush=True)
+    except BrokenPipeError:          # the check that asked has its verdict and is gone
+        break
 """
 
 
